@@ -23,7 +23,8 @@ class json:  # json with a fallback for generator objects kept in Case.info
 
 VERIF = os.path.dirname(os.path.dirname(os.path.abspath(__file__)))
 REPO = os.environ.get('VERIF_REPO', '/repo')
-COQ = os.path.join(VERIF, 'coq')
+COQ = os.environ.get('VERIF_COQ_DIR', os.path.join(VERIF, 'coq'))       # scratch copies are used when a seeded change is tried
+OCAML = os.environ.get('VERIF_OCAML_DIR', os.path.join(VERIF, 'ocaml'))
 sys.path.insert(0, os.path.join(VERIF, 'tools'))
 
 ALLOWED_AXIOMS = {
@@ -64,12 +65,12 @@ def proof_step(pid, log, areas=('base',)):
     """returns dict(obligations, discharged, theorems=[(name, assumptions)], ok, errors)"""
     import gen_facts
     res = {'obligations': 0, 'discharged': 0, 'theorems': [], 'ok': False, 'errors': []}
-    with Lock(os.path.join(VERIF, '.coq.lock')):
+    with Lock(os.path.join(COQ, '..', '.coq.lock') if COQ.startswith(VERIF) else os.path.join(COQ, '.coq.lock')):
         try:
             gen_facts.generate(REPO, os.path.join(COQ, 'gen'))
         except Exception as e:
             res['errors'].append('gen_facts failed: %r' % (e,))
-        sh('sh %s/tools/coqproject.sh' % VERIF)
+        sh('sh %s/tools/coqproject.sh %s' % (VERIF, COQ))
         # forbidden constructs anywhere in the development
         for fn in sorted(os.listdir(COQ)) + ['gen/' + x for x in sorted(os.listdir(os.path.join(COQ, 'gen')))]:
             if fn.endswith('.v'):
@@ -85,10 +86,10 @@ def proof_step(pid, log, areas=('base',)):
             res['errors'].append('coq build failed: ' + out[-1500:])
         # (re)build the OCaml driver when the extracted model or the driver sources changed
         for area in areas:
-            drv = os.path.join(VERIF, 'ocaml', 'driver_' + area)
-            srcs = [os.path.join(COQ, 'model_%s.ml' % area)] + [os.path.join(VERIF, 'ocaml', f) for f in ('driver.ml', 'h_%s.ml' % area, 'main.ml')]
+            drv = os.path.join(OCAML, 'driver_' + area)
+            srcs = [os.path.join(COQ, 'model_%s.ml' % area)] + [os.path.join(OCAML, f) for f in ('driver.ml', 'h_%s.ml' % area, 'main.ml')]
             if os.path.exists(srcs[0]) and (not os.path.exists(drv) or any(os.path.getmtime(s) > os.path.getmtime(drv) for s in srcs)):
-                rc2, out2 = sh('sh %s %s' % (os.path.join(VERIF, 'ocaml', 'build.sh'), area))
+                rc2, out2 = sh('COQ_DIR=%s sh %s %s' % (COQ, os.path.join(OCAML, 'build.sh'), area))
                 if rc2 != 0: res['errors'].append('ocaml driver build failed: ' + out2[-800:])
         # per-theorem assumptions: a generated file asks the kernel for the assumptions of every theorem of the property file
         pf = os.path.join(COQ, 'Properties_%s.v' % pid)
@@ -215,7 +216,7 @@ def main():
         # 2. implementation (one driver per area: each area has its own handlers)
         flags = getattr(mod, 'IMPL_FLAGS', '')
         impls = {a: build_impl(tmp, log, area=a, name='impl_' + a, extra_flags=(flags.get(a, '') if isinstance(flags, dict) else flags)) for a in areas}
-        models = {a: os.path.join(VERIF, 'ocaml', 'driver_' + a) for a in areas}
+        models = {a: os.path.join(OCAML, 'driver_' + a) for a in areas}
         impl, model = impls[areas[0]], models[areas[0]]
         ctx = {'tmp': tmp, 'tier': tier, 'seed': seed, 'impl': impl, 'model': model, 'impls': impls, 'models': models, 'repo': REPO, 'verif': VERIF,
                'run_driver': run_driver, 'build_impl': build_impl, 'sh': sh, 'log': log}
